@@ -50,10 +50,22 @@ func (s *Sched) start(g *G, fn func()) {
 			g.pend = Op{Kind: "exit"}
 			s.yield <- struct{}{}
 		}()
+		if StartPoints && g.ID != "0" {
+			s.park(Op{Kind: "start"})
+		}
 		fn()
 	}()
 	<-s.yield
 }
+
+// StartPoints makes the start of every spawned goroutine a scheduling point of
+// its own (pending operation "start", always enabled): by default the code a
+// new goroutine runs before its first operation executes atomically with the
+// spawn, which is only sound when that code touches no shared variable. The
+// language-version variant (generated code compiled as go1.21, where a range
+// variable is shared by all iterations) needs the parent to be able to run on
+// before the child reads what it captured.
+var StartPoints bool
 
 // park is called by the running goroutine before an operation takes effect.
 func (s *Sched) park(op Op) result {
@@ -171,6 +183,8 @@ func (s *Sched) Enabled() []Trans {
 			}
 		case "go":
 			ts = append(ts, Trans{Kind: "go", G: g, Case: -1})
+		case "start":
+			ts = append(ts, Trans{Kind: "start", G: g, Case: -1})
 		case "add":
 			if op.Wg.n+op.N < 0 {
 				ts = append(ts, Trans{Kind: "negwg", G: g, Case: -1})
